@@ -12,8 +12,11 @@ k = json.loads(sys.argv[1])
 print("FAILS" if props.witness_still_fails(k["property"], k) else "PASSES")
 ''' % ROOT
 ok = True
+only = sys.argv[1:]
 for k in known["fixed"]:
-    if "witness" not in k and k.get("kind") != "schedule":
+    if only and k["commit"] not in only:
+        continue
+    if "witness" not in k and k.get("kind") not in ("schedule", "shutdown"):
         continue
     res = {}
     for label, rev in (("parent", k["commit"] + "^"), ("head", "HEAD")):
